@@ -322,6 +322,10 @@ def main():
     cases.append(("generated-large-unmarked", big, "x86", "zen2", True, False, True))
     cases.append(("generated-large-marked", "# OSACA-BEGIN\n" + big + "# OSACA-END\n", "x86", "zen2", True, False, True))
     cases.append(("generated-large-unmarked-no-arch", big, "x86", DEFAULTS["x86"], True, False, False))  # both warnings at once
+    # "more than 100 PARSED lines": 90 instructions + 15 label / comment / directive lines are 105 parsed lines; 100 instructions are not
+    mixed = "\n".join("\n".join(["addq $1, %rax"] * 6 + [(".L%d:" % i) if i % 3 == 0 else ("# note %d" % i) if i % 3 == 1 else ".p2align 4"]) for i in range(15)) + "\n"
+    cases.append(("generated-large-unmarked-mixed-lines", mixed, "x86", "zen2", True, False, True))
+    cases.append(("generated-exactly-100-lines", "\n".join(["addq $1, %rax"] * 100) + "\n", "x86", "zen2", True, False, True))
     cases.append(("generated-large-unmarked-no-arch-a64", "\n".join(["add x1, x1, #1"] * 120) + "\n", "aarch64", DEFAULTS["aarch64"], True, False, False))
     for isa, archs in (("x86", X86), ("aarch64", A64)):  # warm the model caches sequentially (see dg_oracle.py)
         for arch in archs + [DEFAULTS[isa]]:
